@@ -87,6 +87,14 @@ def catalogue(tier):
         ]
         for i, s, k in tpl:
             out.append((i, lv, s, k))
+        # the same statements about a table that is missing where its qualified name points, while a table of the same
+        # bare name exists in the current schema (db1.s1.t exists; db1.s2.t and db2.s1.t do not): a look-up that drops
+        # the qualifier would find the decoy
+        if lv in (1, 2):
+            D = "s2.t" if lv == 1 else "db2.s1.t"
+            for i, s, k in tpl:
+                if k == "missing_table" and (tier != "quick" or i in ("select_from", "insert_target", "update_target", "drop_table", "alter_add", "alter_rename", "alter_set_comment", "comment_on", "comment_on_column", "clone_source", "describe_table", "merge_target", "merge_source", "truncate_target")):
+                    out.append((i + "_decoy", lv, s.replace(N, D), k))
     out += [
         ("unknown_function", 2, "select nofunc(1)", "any"),
         ("undefined_variable", 2, "select $undefined_var", "undef_var"),
